@@ -21,7 +21,7 @@ RULE = ("explicit-state breadth-first search to a fixpoint over histories of Rul
         "reported sets. distinct_nontrivial = number of distinct states; evaluations = transitions.")
 
 NAMES = ["a", "b", "z"]
-ALTS = [(), ("x",), ("x", "y")]
+ALTS = [(), ("x",), ("x", "y"), ("x", "x"), ("",)]
 CHAINS = ["", "x", "y", "w"]
 
 
@@ -423,6 +423,30 @@ def f_invariant(f):
                 got = [getattr(g, "__name__", "?") for g in ruler.getRules(c)]
                 return (f"{cname} chain {c!r}: applied rules {got} differ from reported active "
                         f"{ruler.get_active_rules()}")
+    # every active rule of the unconditional chains (core, inline2) is really invoked by a parse - also on
+    # content without any delimiter run
+    called = set()
+
+    def spy(name, fn):
+        def w(*a, **k):
+            called.add(name)
+            return fn(*a, **k)
+        return w
+
+    for cname, ruler in (("core", md.core.ruler), ("inline2", md.inline.ruler2)):
+        for rule in list(ruler.__rules__):
+            ruler.at(rule.name, spy((cname, rule.name), rule.fn), {"alt": list(rule.alt)})
+    try:
+        md.render("plain text, no delimiters\n\nsecond [l](u) paragraph\n")
+    except Exception:
+        pass
+    for cname, ruler in (("core", md.core.ruler), ("inline2", md.inline.ruler2)):
+        want = {(cname, n) for n in ruler.get_active_rules()}
+        got = {c for c in called if c[0] == cname}
+        if cname == "inline2" and "inline" not in md.core.ruler.get_active_rules():
+            continue
+        if want != got:
+            return f"{cname} chain: rules invoked by a parse {sorted(n for _, n in got)} differ from reported active {sorted(n for _, n in want)}"
     fresh = MarkdownIt("commonmark", {k: v for k, v in dict(md.options).items()})
     act = md.get_active_rules()
     allr = md.get_all_rules()
